@@ -173,6 +173,7 @@ func (P *Prog) index() {
 		if strings.HasPrefix(pk, modPath) && !nonUniversePkgs[pk] {
 			// a generic origin has no instantiated body of interest when instances exist; keep both
 			P.universe = append(P.universe, fn)
+			noteFunctionNames(fn)
 			P.inUni[fn] = true
 		}
 	}
